@@ -54,6 +54,10 @@ def point_inside(points: np.ndarray, vertices: np.ndarray, in_out: str) -> np.nd
     mat = vertices[:, 1:].swapaxes(0, 1) - vertices[:, 0]
     mat = np.transpose(mat.swapaxes(0, 1), (0, 2, 1))
 
+    # a degenerate tetrahedron (coplanar vertices) has no interior
+    mask_degenerate = np.linalg.det(mat) == 0
+    mat[mask_degenerate] = np.eye(3)
+
     tetra = np.linalg.inv(mat)
     newp = np.matmul(tetra, np.reshape(points - vertices[:, 0, :], (*points.shape, 1)))
     inside = (
@@ -61,6 +65,7 @@ def point_inside(points: np.ndarray, vertices: np.ndarray, in_out: str) -> np.nd
         & np.all(newp <= 1, axis=1)
         & (np.sum(newp, axis=1) <= 1)
     ).flatten()
+    inside[mask_degenerate] = False
 
     return inside
 
